@@ -121,6 +121,8 @@ Record InvP (evl : evlist) (g : ghost) (w : world) : Prop := {
   i_tape : tape (w_st w) = [];
   i_csc : cs_complete (w_st w);
   i_csb : forall x, set_mem x (cset (w_st w)) = true -> (x < length (ents (w_st w)))%nat;
+  (* ... and exact: only entries with a change flag and an id are pending *)
+  i_cse : forall e en, nth_error (ents (w_st w)) e = Some en -> set_mem e (cset (w_st w)) = true -> flagged en = true;
   i_clk : lastch (w_st w) <= now (w_st w);
   (* a punt moves a stamp one unit past the clock reading of its step; the next step's tick is 1000 units *)
   i_clke : forall e en, nth_error (ents (w_st w)) e = Some en ->
@@ -222,6 +224,7 @@ Lemma inv_master evl evl' g g' w w' e en' :
      exists xn', nth_error (ents (w_st w')) x = Some xn' /\ same_but_prio xn xn') ->
   (forall x, x <> e -> set_mem x (cset (w_st w')) = set_mem x (cset (w_st w))) ->
   (flagged en' = true -> set_mem e (cset (w_st w')) = true) ->
+  (set_mem e (cset (w_st w')) = true -> flagged en' = true) ->
   now (w_st w) <= now (w_st w') -> lastch (w_st w') <= now (w_st w') ->
   maxchg en' <= now (w_st w') + 1 -> (forall sd, x_lg (getx w' e sd) <= now (w_st w') + 1) ->
   tape (w_st w') = [] -> IdxJ (w_st w') ->
@@ -239,7 +242,7 @@ Lemma inv_master evl evl' g g' w w' e en' :
   EntOk evl' g' w' e en' ->
   InvP evl' g' w'.
 Proof.
-  intros I Hcfg Hprov He Hen' Hlen Hnew Hoth Hcs Hcse Hnow Hlast Hmax Hlg Htape Hidx Hx Hframe Hcov Hcove Hghost HE.
+  intros I Hcfg Hprov He Hen' Hlen Hnew Hoth Hcs Hcse Hcsx Hnow Hlast Hmax Hlg Htape Hidx Hx Hframe Hcov Hcove Hghost HE.
   assert (Hold: forall x xn', x <> e -> nth_error (ents (w_st w')) x = Some xn' ->
                 exists xn, nth_error (ents (w_st w)) x = Some xn /\ same_but_prio xn xn').
   { intros x xn' Hne Hx'. destruct (nth_error (ents (w_st w)) x) as [xn|] eqn:Ex.
@@ -259,6 +262,10 @@ Proof.
   - intros x Hm. destruct (Nat.eq_dec x e) as [->|Hne].
     + apply nth_error_Some. congruence.
     + rewrite (Hcs x Hne) in Hm. pose proof (i_csb _ _ _ I x Hm). lia.
+  - intros x xn' Hx' Hm. destruct (Nat.eq_dec x e) as [->|Hne].
+    + assert (xn' = en') by congruence. subst. apply Hcsx. exact Hm.
+    + destruct (Hold x xn' Hne Hx') as (xn & Hxn & S). rewrite (Hcs x Hne) in Hm.
+      rewrite <- (sbp_flagged _ _ S). apply (i_cse _ _ _ I x xn Hxn Hm).
   - exact Hlast.
   - intros x xn' Hx'. destruct (Nat.eq_dec x e) as [->|Hne].
     + assert (xn' = en') by congruence. subst. split; [exact Hmax|exact Hlg].
